@@ -54,9 +54,8 @@ theorem After.restart (A : After c inst dom s0 st s1 g old cur m new) {s2 : St} 
     | inl h => exact ⟨n, A.g0 h.2, rfl⟩
     | inr h => exact ⟨_, by rw [h.1]; exact A.head, by rw [h.2]; rfl⟩
   have hinv : Inv c inst dom s2 := by
-    refine ⟨?_, ?_, ?_, ?_, ?_, ?_, ?_, ?_, ?_, ?_, ?_, ?_, ?_⟩
+    refine ⟨?_, ?_, ?_, ?_, ?_, ?_, ?_, ?_, ?_, ?_, ?_, ?_⟩
     · rw [R.oracle, R.oracleDefault, R.interrupted]; exact A.i1.quiet
-    · rw [R.cache]; exact A.i1.cacheOn
     · exact fun k v h => A.i1.cacheOK k v (R.inCache.mp h)
     · intro e he
       obtain ⟨i, hi⟩ := List.getElem?_of_mem he
@@ -111,7 +110,7 @@ theorem After.restart (A : After c inst dom s0 st s1 g old cur m new) {s2 : St} 
         exact J.mono (fun j hj => hj.from0 ⟨_, hg2⟩ hflag) (A.L.i0.just i n h.2 hd htop)
       | inr h => rw [h.2] at hd; cases hd
   refine ⟨A.L.i0, A.L.u0, A.L.gdom, hinv, ⟨cur, hg2⟩, hlen2, hsext,
-    fun k v h => R.inCache.mpr (A.cacheExt k v h), ?_⟩
+    fun k v h => R.inCache.mpr (A.cacheExt k v h), ?_, by rw [R.cache, A.step.cacheMode, A.L.cacheMode]⟩
   intro k hu hd
   apply loop_low A.L A.i1 A.step A.fact k hu
   cases hd with
